@@ -57,7 +57,7 @@ class DynWrite(Case):
             return cs
         Case.__init__(s, f'w{kind[:3]}_{SHORT[T]}_{"x".join(map(str, shape))}_{"x".join(map(str, oshape))}_{OPN[op]}{macro_tag}', [a] + extra + sc, k, r,
                       desc=f'A({seqs}) {op} {fr}: parent {shape}, extent {oshape}, {T}', pre=pre)
-        s.dom = 'real' if kind == 'matvec' else ('uf' if T in FT else 'bits'); s.max_paths = 400; s.timeout = 20
+        s.dom = 'real' if kind == 'matvec' else ('uf' if T in FT else 'bits'); s.uf_int = T in IT; s.max_paths = 400; s.timeout = 20
         if T in FT and op == '/=' and kind == 'scalar': s.alt_ref_src = r.replace(apply_op(T, op, dst, sr), f'{dst} *= (({T})1/x[0]);')
 
 
@@ -82,7 +82,7 @@ class FixWrite(Case):
             return cs
         nm = '_'.join((sp[0][0] + '_'.join(str(x).replace('-', 'm') for x in sp[1:])) for sp in specs)
         Case.__init__(s, f'fw{kind[:3]}_{SHORT[T]}_{"x".join(map(str, shape))}_{nm}_{OPN[op]}', [a] + extra, k, ' '.join(lines), desc=f'A({call}) {op} {fr} on {shape} {T}', pre=pre)
-        s.dom = 'uf' if T in FT else 'bits'
+        s.dom = 'uf' if T in FT else 'bits'; s.uf_int = T in IT
         if T in FT and op == '/=' and kind == 'scalar': s.alt_ref_src = ' '.join(l.replace('/= x[0]', f'*= (({T})1/x[0])') for l in lines)
 
 
@@ -106,7 +106,7 @@ class TwoWrites(Case):
         r = (f'long F0={norm_c("f0", N)}; long F1={norm_c("f1", N)}; for(int q=0;q<{n};++q) a[F0+q*s0]=b[q]; for(int q=0;q<{n};++q) {{ ' + apply_op(T, '+=', 'a[F1+q*s1]', 'c[q]') + ' }')
         def pre(V): return seq_pre(V, 'f0', 'l0', 's0', N, n) + seq_pre(V, 'f1', 'l1', 's1', N, n)
         Case.__init__(s, f'two_{SHORT[T]}_{N}_{n}', [a, b, c] + sc, k, r, desc=f'A(r1)=B; A(r2)+=C on Tensor<{T},{N}>, extent {n}', pre=pre)
-        s.dom = 'uf' if T in FT else 'bits'; s.max_paths = 400; s.timeout = 30
+        s.dom = 'uf' if T in FT else 'bits'; s.uf_int = T in IT; s.max_paths = 400; s.timeout = 30
 
 
 OPS = ['=', '+=', '-=', '*=', '/=']
@@ -123,13 +123,14 @@ def cases(tier, cfg, seed):
             for op in OPS:
                 kinds = ['tensor', 'scalar'] if (tier == 'quick' and op not in ('=', '+=')) else ['tensor', 'scalar', 'expr', 'slice']
                 if tier == 'quick' and (N, n) != (9, 4): kinds = ['tensor']
+                if tier == 'quick' and (N, n) != (9, 4) and op in ('*=', '/=') and T in IT: continue
                 for kind in kinds: add(DynWrite(T, (N,), (n,), op, kind))
         if isf: add(DynWrite(T, (9,), (3,), '+=', 'matvec')); add(DynWrite(T, (9,), (4,), '=', 'matvec'))
-        for shape, osh in ([((4, 9), (2, 4))] if tier == 'quick' else [((4, 9), (2, 4)), ((5, 5), (3, 2)), ((3, 8), (3, 8)), ((4, 9), (4, 3))]):
+        for shape, osh in (([((4, 9), (2, 4))] if (T == 'double' and cfg.isa == 'avx2') else []) if tier == 'quick' else [((4, 9), (2, 4)), ((5, 5), (3, 2)), ((3, 8), (3, 8)), ((4, 9), (4, 3))]):
             for op in (('=',) if tier == 'quick' else OPS):
                 for kind in ('tensor', 'scalar'): add(DynWrite(T, shape, osh, op, kind))
         for shape in ((7,), (3, 5), (2, 3, 4)): add(ElemWrite(T, shape))
-        add(TwoWrites(T, 9, 3))
+        if (T == 'double' and cfg.isa == 'sse2') or tier != 'quick': add(TwoWrites(T, 9, 3))
         if tier != 'quick': add(TwoWrites(T, 9, 4))
         # compile-time ranges
         for N in ((9,) if tier == 'quick' else (6, 9, 17)):
@@ -141,6 +142,9 @@ def cases(tier, cfg, seed):
         for sp0, sp1 in combos[:12 if tier == 'quick' else 80]:
             if sp0[0] == 'int' and sp1[0] == 'int': continue
             add(FixWrite(T, (4, 6), [sp0, sp1], rng.choice(OPS if isf else OPS[:4]), rng.choice(['tensor', 'scalar'])))
+        for op in ('=', '+='):
+            add(FixWrite(T, (2, 17), [('all',), fs(0, 16, 2)], op, 'tensor')); add(FixWrite(T, (2, 17), [('all',), fs(1, 17, 2)], op, 'scalar'))
+            add(FixWrite(T, (3, 6), [('all',), fs(0, 6, 2)], op, 'scalar')); add(FixWrite(T, (3, 6), [fs(0, -1), fs(1, 4)], op, 'tensor'))
         add(FixWrite(T, (3, 4, 5), [fs(0, 2), ('all',), fs(1, 5, 2)], '+=', 'tensor'))
         add(FixWrite(T, (3, 4, 5), [('int', 1), ('all',), fs(0, 4)], '=', 'scalar'))
     return out
@@ -148,7 +152,8 @@ def cases(tier, cfg, seed):
 
 def cfgs(tier):
     c = main_cfgs(tier)
-    return c + [Cfg('avx2', 17, 'O2', ('FASTOR_USE_VECTORISED_EXPR_ASSIGN=1',))]
+    if tier == 'quick': return c + [Cfg('avx512', 17, 'O2', ('FASTOR_USE_VECTORISED_EXPR_ASSIGN=1',))]
+    return c + [Cfg('avx2', 17, 'O2', ('FASTOR_USE_VECTORISED_EXPR_ASSIGN=1',)), Cfg('avx512', 17, 'O2', ('FASTOR_USE_VECTORISED_EXPR_ASSIGN=1',))]
 
 
 def bounds(tier): return {'dynamic_parents': '1-D N in {5,9}(quick) / up to 17; 2-D 4x9', 'operators': OPS, 'rhs': ['scalar', 'tensor', 'slice', 'expression', 'matvec (needs evaluation)'],
